@@ -84,8 +84,14 @@ FaultScenPoints ==
      \cup {base @@ [x |-> [EnvBase EXCEPT !.wd = "/d", !.prog = "./c", !.envx = <<"A=1", "B=2">>, !.argvx = <<"a">>]],
            base @@ [x |-> [EnvBase EXCEPT !.envb = 1, !.envx = <<"A=1">>, !.mask = <<13, 15, 17>>, !.disp = <<<<2, 2>>, <<13, 1>>>>]]}
 
+\* family "env2": two starts (two handles) with a change the CALLER makes to its own process in between - working directory,
+\* environment, descriptor limit plus a new high descriptor; the second start must see the new state only
+Env2Points ==
+  {Opt(<<U, U, U>>, NoSh, -1, FALSE, TRUE) @@ [x |-> [EnvBase EXCEPT !.wd = "/d", !.prog = p, !.cwd = c1, !.penv = e1], x2 |-> [cwd |-> c2, penv |-> e2, limit |-> l2]] :
+     p \in {"./c", "sub/c", "/bin/c"}, c1 \in Cwds, c2 \in Cwds, e1 \in {<<"P=1">>, <<>>}, e2 \in {<<"P=2", "Q=3">>, <<>>}, l2 \in {32, 64}}
+
 Points == IF Family = "options" THEN OptionPoints ELSE IF Family = "wiring" THEN WiringPoints
-          ELSE IF Family = "faultscen" THEN FaultScenPoints ELSE EnvPoints
+          ELSE IF Family = "faultscen" THEN FaultScenPoints ELSE IF Family = "env2" THEN Env2Points ELSE EnvPoints
 X == IF "x" \in DOMAIN o THEN o.x ELSE EnvBase
 
 \* C03: program resolution.  A path is relative if it does not start with "/" but contains one.
@@ -106,13 +112,13 @@ EBADF == -9
 
 RJ(r) == <<r.t, r.h, r.f, r.p>>
 CfgRec == [e |-> "cfg", cap |-> 8, limit |-> IF Family \in {"env", "faultscen"} THEN X.limit ELSE 32, fds |-> [s \in 1..3 |-> IF k.std[s] THEN 1 ELSE 0], extra |-> Extras]
-          @@ (IF Family \in {"env", "faultscen"}
+          @@ (IF Family \in {"env", "faultscen", "env2"}
                 THEN [env |-> X.penv, cwd |-> X.cwd, cwdlen |-> X.cwdlen, mask |-> X.mask, disp |-> X.disp,
                       fs |-> <<<<"/w/./c", 3>>, <<"/w/sub/c", 3>>, <<"/w/sub//c", 3>>, <<"/./c", 3>>, <<"/sub/c", 3>>, <<"/sub//c", 3>>,
                                <<"c", 3>>, <<"./c", 3>>, <<"sub/c", 3>>, <<"sub//c", 3>>, <<"/./c", 19>>>>]
                 ELSE <<>>)
 StartRec == [e |-> "call", fn |-> "start", h |-> 1, term |-> 2, argv |-> IF o.argv THEN <<X.prog>> \o X.argvx ELSE <<>>, noargv |-> IF o.argv THEN 0 ELSE 1,
-             o |-> (IF Family \in {"env", "faultscen"} THEN [envb |-> X.envb] @@ (IF X.envx = <<"none">> THEN <<>> ELSE [envx |-> X.envx])
+             o |-> (IF Family \in {"env", "faultscen", "env2"} THEN [envb |-> X.envb] @@ (IF X.envx = <<"none">> THEN <<>> ELSE [envx |-> X.envx])
                                            @@ (IF X.wd = "" THEN <<>> ELSE [wd |-> X.wd]) ELSE <<>>) @@
                    [rin |-> RJ(o.rd[1]), rout |-> RJ(o.rd[2]), rerr |-> RJ(o.rd[3]),
                     parent |-> IF o.sh.parent THEN 1 ELSE 0, discard |-> IF o.sh.discard THEN 1 ELSE 0,
@@ -138,7 +144,7 @@ Expected ==
             common @@ [r |-> 1, cw |-> ChildWiring(v.eff, kk), cx |-> ChildExtra(v.eff), pp |-> ParentEnds(v.eff, kk.hasInput),
                        cnb |-> 0, cexec |-> 1, cmask |-> <<>>, cdisp |-> <<>>, pmask |-> X.mask, pdisp |-> X.disp, pcwd |-> X.cwd,
                        cargv |-> <<X.prog>> \o X.argvx, cenv |-> ExpEnv, cprog |-> ExpProg]
-       [] Family = "env" ->
+       [] Family \in {"env", "env2"} ->
             common @@ [r |-> 1, left |-> 0, cexec |-> 1, cargv |-> <<X.prog>> \o X.argvx, cenv |-> ExpEnv,
                        pmask |-> X.mask, pdisp |-> X.disp, penv |-> X.penv, cmask |-> <<>>, cdisp |-> <<>>]
                    @@ (IF X.cwdlen > 0 /\ X.wd # "" /\ IsRel(X.prog) THEN [cprogl |-> <<ExpProgLen, 1>>]
@@ -148,7 +154,23 @@ Expected ==
                                       pp |-> ParentEnds(v.eff, kk.hasInput), cnb |-> 0, cexec |-> 1,
                                       nfd |-> BaseFds + Len(ParentEnds(v.eff, kk.hasInput)), left |-> 0]
 
-Script == <<CfgRec, [e |-> "call", fn |-> "new", h |-> 1], [e |-> "ret", r |-> 1], StartRec, Expected>>
+\* second half of an env2 script: the caller changes its own process, then starts a second child with the same options
+Joined2(c, p) == IF c = "/" THEN "/" \o p ELSE c \o "/" \o p
+Exp2 ==
+  LET v == Verdict(o)
+      x2 == o.x2
+      highs == IF x2.limit = 64 THEN <<50, 63>> ELSE <<>>
+  IN [e |-> "ret", mon |-> <<>>, r |-> 1, left |-> 0, cexec |-> 1,
+      cw |-> ChildWiring(v.eff, [k EXCEPT !.hasInput = FALSE]), cx |-> ChildExtra(v.eff),
+      cprog |-> IF IsRel(X.prog) THEN Joined2(x2.cwd, X.prog) ELSE X.prog,
+      cenv |-> x2.penv, pcwd |-> x2.cwd, ccwd |-> X.wd]
+Script2 ==
+  <<CfgRec, [e |-> "call", fn |-> "new", h |-> 1], [e |-> "ret", r |-> 1], StartRec, Expected,
+    [e |-> "call", fn |-> "pchdir", h |-> 0, dir |-> o.x2.cwd], [e |-> "call", fn |-> "psetenv", h |-> 0, env |-> o.x2.penv],
+    [e |-> "call", fn |-> "plimit", h |-> 0, limit |-> o.x2.limit, open |-> IF o.x2.limit = 64 THEN <<50, 63>> ELSE <<>>],
+    [e |-> "call", fn |-> "new", h |-> 2], [e |-> "ret", r |-> 1],
+    [StartRec EXCEPT !.h = 2], Exp2>>
+Script == IF Family = "env2" THEN Script2 ELSE <<CfgRec, [e |-> "call", fn |-> "new", h |-> 1], [e |-> "ret", r |-> 1], StartRec, Expected>>
 
 Next == phase = "pick" /\ phase' = "done" /\ UNCHANGED <<o, k>> /\ PrintT(<<"BEH", ToJson(Script)>>)
 Spec == Init /\ [][Next]_vars
